@@ -115,3 +115,192 @@ class FakePty:
 
     def isalive(self):
         return self.w.alive()
+
+
+# ---------------------------------------------------------------------------------------------
+class Hang(Exception):
+    """a system call that can never return (e.g. blocking waitpid on a child that never exits)"""
+
+
+SIGHUP, SIGINT, SIGKILL, SIGTERM, SIGCONT, SIGSTOP = 1, 2, 9, 15, 18, 19
+RUNNING, STOPPED, ZOMBIE, REAPED = 0, 1, 2, 3
+
+
+class ProcWorld:
+    """One child process, POSIX signal delivery rules, the parent's descriptor table.
+
+    * the child exits by itself with wait status `status_nat` before the parent's `exit_at`-th system
+      call (never if exit_at is None); a stopped child does not run
+    * HUP/INT are ignored per disposition bits; every other signal (and HUP/INT when not ignored)
+      terminates the child (wait status = signal number); KILL always terminates; STOP stops;
+      signals sent to a stopped child stay pending until CONT
+    * waitpid(WNOHANG) never blocks; waitpid(0) blocks until the child is a zombie - Hang if it never will be
+    * W* macros are arithmetic on the 16-bit status
+    * descriptors: close() of a number that is not open fails with EBADF; a closed number may be
+      re-issued to a new owner (reuse())
+    """
+    WNOHANG = 1
+
+    def __init__(self, status_nat, exit_at, ign_hup, ign_int, stopped, fds=(7,)):
+        self.status_nat, self.exit_at = status_nat, exit_at
+        self.ign_hup, self.ign_int = ign_hup, ign_int
+        self.state = STOPPED if stopped else RUNNING
+        self.status = None
+        self.pending = []
+        self.n = 0
+        self.fds = {fd: 'child' for fd in fds}
+        self.sent = []
+        self.kills_after_reap = 0
+        self.foreign_io = 0
+
+    # -- scheduling
+    def tick(self):
+        self.n += 1
+        if self.state == RUNNING and self.exit_at is not None and self.n > self.exit_at:
+            self.state, self.status = ZOMBIE, self.status_nat
+
+    def _deliver(self, sig):
+        if self.state in (ZOMBIE, REAPED):
+            return
+        if sig == SIGKILL:
+            self.state, self.status = ZOMBIE, SIGKILL
+            return
+        if sig == SIGCONT:
+            if self.state == STOPPED:
+                self.state = RUNNING
+                pend, self.pending = self.pending, []
+                for s in pend:
+                    self._deliver(s)
+            return
+        if sig == SIGSTOP:
+            self.state = STOPPED
+            return
+        if self.state == STOPPED:
+            self.pending.append(sig)
+            return
+        if sig == 0:
+            return
+        if (sig == SIGHUP and self.ign_hup) or (sig == SIGINT and self.ign_int):
+            return
+        self.state, self.status = ZOMBIE, sig
+
+    # -- os API
+    def kill(self, pid, sig):
+        self.tick()
+        self.sent.append(sig)
+        if self.state == REAPED:
+            self.kills_after_reap += 1
+            raise OSError(errno.ESRCH, 'ESRCH')
+        self._deliver(sig)
+
+    def waitpid(self, pid, opts):
+        self.tick()
+        if self.state == REAPED:
+            raise OSError(errno.ECHILD, 'ECHILD')
+        if self.state != ZOMBIE:
+            if opts == self.WNOHANG:
+                return (0, 0)
+            if self.state == RUNNING and self.exit_at is not None:
+                self.state, self.status = ZOMBIE, self.status_nat
+            else:
+                raise Hang()
+        self.state = REAPED
+        return (pid, self.status)
+
+    def close(self, fd):
+        self.tick()
+        if fd not in self.fds:
+            raise OSError(errno.EBADF, 'EBADF')
+        if self.fds[fd] != 'child':
+            self.foreign_io += 1
+        del self.fds[fd]
+        # closing the master side hangs up the terminal: the child gets SIGHUP
+        self._deliver(SIGHUP)
+
+    def reuse(self, fd):
+        """the kernel hands the (free) number to somebody else"""
+        if fd not in self.fds:
+            self.fds[fd] = 'other'
+
+    def write(self, fd, data):
+        if fd not in self.fds:
+            raise OSError(errno.EBADF, 'EBADF')
+        if self.fds[fd] != 'child':
+            self.foreign_io += 1
+        return len(data)
+
+    def read(self, fd, n):
+        if fd not in self.fds:
+            raise OSError(errno.EBADF, 'EBADF')
+        if self.fds[fd] != 'child':
+            self.foreign_io += 1
+        raise OSError(errno.EIO, 'EIO')
+
+    def fstat(self, fd):
+        if fd not in self.fds:
+            raise OSError(errno.EBADF, 'EBADF')
+        return None
+
+    def isatty(self, fd):
+        return fd in self.fds
+
+    @staticmethod
+    def WIFEXITED(s):
+        return s % 128 == 0
+
+    @staticmethod
+    def WEXITSTATUS(s):
+        return (s // 256) % 256
+
+    @staticmethod
+    def WIFSIGNALED(s):
+        return s % 128 != 0 and s % 128 != 127
+
+    @staticmethod
+    def WTERMSIG(s):
+        return s % 128
+
+    @staticmethod
+    def WIFSTOPPED(s):
+        return s % 256 == 127
+
+    O_RDONLY = 0
+    linesep = '\n'
+    name = 'posix'
+
+
+class FakeFileObj:
+    def __init__(self, w, fd):
+        self.w, self.fd, self.closed = w, fd, False
+
+    def close(self):
+        if not self.closed:
+            self.closed = True
+            self.w.close(self.fd)
+
+    def fileno(self):
+        return self.fd
+
+    def flush(self):
+        pass
+
+
+def make_pty_spawn(w, fd=7, pid=4242, **kw):
+    """A pexpect.spawn object attached to a real ptyprocess.PtyProcess instance (built without
+    forking) whose `os`/`time` are the world's."""
+    import ptyprocess.ptyprocess as PP
+    import pexpect.pty_spawn as PS
+    pt = PP.PtyProcess.__new__(PP.PtyProcess)
+    pt.pid, pt.fd, pt.terminated, pt.closed = pid, fd, False, False
+    pt.exitstatus = pt.signalstatus = pt.status = None
+    pt.flag_eof = False
+    pt.delayafterclose = 0
+    pt.delayafterterminate = 0
+    pt.fileobj = FakeFileObj(w, fd)
+    sp = PS.spawn(None, **kw)
+    sp.ptyproc, sp.pid, sp.child_fd, sp.closed, sp.terminated = pt, pid, fd, False, False
+    sp.delayafterclose = 0
+    sp.delayafterterminate = 0
+    sp.delaybeforesend = None
+    sp.use_poll = False
+    return sp, pt
